@@ -19,11 +19,21 @@ SCHED_ASSUMPTIONS = [
     "derived_order_axioms on every run); outside the known finding F11 (K_mixed: delays with different cut-offs, equal below the smaller one)",
     "the connection tables (input_delays, successors, triggers, triggering_ancestors ...) are static while run() is active and well-typed "
     "(static_ok / trig_static); that connect_one builds them so is what its contract proves per connection, the link between the two is argued "
-    "in DESIGN, not mechanised; triggering_ancestors as computed by cache_triggering_ancestors is covered by a bounded stand-in only",
+    "in DESIGN, not mechanised; triggering_ancestors as computed by cache_triggering_ancestors: contract contracts.closure_ded (sound / direct / "
+    "closed, hence the minimum over all trigger paths) with the bounded stand-in kept alongside",
     "simulators are external: every reply value is arbitrary (symbolic), a call may raise ConnectionError",
     "non-real-time mode (rt_factor None) for sim_process and its coroutines; the real-time parts are decided under C17",
     "Python ints are mathematical integers (true in CPython); interpreter not run with -O (assert statements execute)",
 ]
+
+
+CLOSURE_ASSUMPTION = (
+    "cache_triggering_ancestors (contract contracts.closure_ded): simulators / ports / delays are uninterpreted sorts, delays with a total preorder and a "
+    "composition monotone in its left argument (provenance: C08 lemmas trichotomy, lt_transitive, comp_monotone_left for equal shapes and cut-offs; "
+    "different cut-offs between the same two simulators are findings F6 / F11 and excluded); dicts / sets are walked in an arbitrary order, each key once; "
+    "set.pop() returns an arbitrary member; all triggering_ancestors dicts are empty at entry; the induction over trigger paths that turns the lemmas "
+    "closure_min_base / closure_min_step into 'the entry is not above the delay of ANY trigger path' is applied outside the solver; termination of the "
+    "worklist is not proved")
 
 
 def contract_tasks(module, prop, configure=None, names=None, tier="quick"):
